@@ -9,21 +9,70 @@ open LinfaSpec.Proto
 /-- neighbour function from the recorded `within_range` results (`nb=`, one inner list per point) -/
 def nbrsOf (nb : Array (List Nat)) (i : Nat) : List Nat := nb[i]?.getD []
 
-def showLabel : Option Nat → String
-  | none => "-"
-  | some c => toString c
+/-- the part of a DBSCAN labelling the statement fixes (same function as `canon_labels` in
+harness/src/c08.rs): noise `-`; core samples by cluster, clusters renumbered by their first core
+sample; a border sample by the cluster of the core samples in its query result, `b` if those carry two
+different labels, `?<raw>` if its label is not among them. -/
+def canonLabels (nb : Array (List Nat)) (mp : Nat) (labels : List (Option Nat)) : String :=
+  let n := labels.length
+  let lab := labels.toArray
+  let core (i : Nat) : Bool := match nb[i]? with
+    | some l => decide (mp ≤ l.length)
+    | none => false
+  let ren : List Nat := (List.range n).foldl (fun acc i =>
+    match core i, (lab[i]?.getD none) with
+    | true, some c => if acc.contains c then acc else acc ++ [c]
+    | _, _ => acc) []
+  let new (c : Nat) : String := match ren.idxOf? c with
+    | some k => toString k
+    | none => "?" ++ toString c
+  let tok (i : Nat) : String :=
+    match lab[i]?.getD none with
+    | none => "-"
+    | some c =>
+      if core i then new c
+      else
+        let ls : List Nat := ((nb[i]?.getD []).filter fun j => decide (j < n) && core j).filterMap
+          fun j => lab[j]?.getD none
+        let ds := ls.eraseDups
+        if !ds.contains c then "?" ++ toString c
+        else if ds.length ≥ 2 then "b"
+        else new c
+  ",".intercalate ((List.range n).map tok)
 
-/-- `dbscan n= mp= zd= nb=`: labels, `-` for noise -/
+/-- `dbscan n= mp= zd= nb=`: canonical labels -/
 def handleDbscan (toks : List String) : Option String := do
   let n ← argNat toks "n"; let mp ← argNat toks "mp"; let zd ← argNat toks "zd"
   let nb ← argNats2 toks "nb"
   if zd = 0 ∧ nb.length ≠ n then none
   let f : Option (Nat → List Nat) := if zd = 1 then none else some (nbrsOf nb.toArray)
-  some ("ok " ++ showList showLabel (Dbscan.dbscan f mp n))
+  some ("ok " ++ canonLabels (if zd = 1 then #[] else nb.toArray) mp (Dbscan.dbscan f mp n))
 
 def showOpt : Option Float → String
   | none => "-"
   | some x => showF64 x
+
+/-- replay of the model's own ordering with the model's own `getSeeds`: was there, at the moment a
+sample was taken from the seed list, another seed with the same reachability?  Then the order is
+decided by a tie-break the statement does not fix. -/
+def hasTie (nbrs : Nat → List Nat) (dist : Nat → Nat → Float) (n : Nat) (out : List (Optics.Entry Float)) : Bool :=
+  let st := out.foldl (fun (st : List (Optics.Pt Float) × List Bool × Bool) e =>
+    let (pts, processed, tie) := st
+    let mine := Optics.getReach pts e.index
+    let tieNow := match mine with
+      | none => false
+      | some r => (List.range n).any fun j =>
+          j != e.index && !Optics.isProcessed processed j &&
+            (match Optics.getReach pts j with
+             | some s => s == r
+             | none => false)
+    let processed := processed.set e.index true
+    let pts := match e.core with
+      | some cd => (Optics.getSeeds dist e.index cd (Optics.findNeighbors nbrs dist e.index) processed pts []).1
+      | none => pts
+    (pts, processed, tie || tieNow))
+    ((Optics.init (D := Float) n).pts, (Optics.init (D := Float) n).processed, false)
+  st.2.2
 
 /-- `optics n= mp= zd= nb= nd=`: `nd` is aligned with `nb` (`nd[i][k]` = distance between
 point `i` and point `nb[i][k]`, as computed by the real `dist_fn`; the metrics are bitwise
@@ -40,12 +89,48 @@ def handleOptics (toks : List String) : Option String := do
   let dist (i j : Nat) : Float := ((look i j).orElse fun _ => look j i).getD nan
   let f : Option (Nat → List Nat) := if zd = 1 then none else some (nbrsOf nba)
   let out := Optics.optics f dist mp n
-  some ("ok " ++ ";".intercalate (out.map fun e => s!"{e.index}:{showOpt e.core}:{showOpt e.reach}"))
+  let tie := if zd = 1 then false else hasTie (nbrsOf nba) dist n out
+  let margin : Float := if tie then 0.0 else 1.0
+  some ("ok " ++ ";".intercalate (out.map fun e => s!"{e.index}:{showOpt e.core}:{showOpt e.reach}")
+    ++ " margin=~" ++ showF64 margin)
+
+def showTol (x : Float) : String := if x.isNaN then "nan" else showF64 x
+
+/-- `params algo= ty= mp= tol= notol=`: constructor default, `.tolerance`, `check` -/
+def handleParams (toks : List String) : Option String := do
+  let algo ← arg toks "algo"; let ty ← arg toks "ty"
+  let mp ← argNat toks "mp"; let notol ← argNat toks "notol"
+  let tolS ← arg toks "tol"
+  let nan : Float := 0.0 / 0.0
+  let tol ← if tolS == "nan" then some nan else parseF64 tolS
+  -- `F::cast(1e-4)` / `F::infinity()`
+  let small : Float ← match ty with
+    | "f64" => some (1e-4 : Float)
+    | "f32" => some ((1e-4 : Float).toFloat32.toFloat)
+    | _ => none
+  let inf : Float := 1.0 / 0.0
+  match algo with
+  | "dbscan" =>
+    let p0 := Dbscan.Params.new small mp
+    let p := if notol = 1 then p0 else p0.withTolerance tol
+    match p.check with
+    | .ok v => some s!"ok mp={v.minPoints} tol={showTol v.tolerance}"
+    | .error .minPoints => some "err MinPoints"
+    | .error .tolerance => some "err Tolerance"
+  | "optics" =>
+    let p0 := Optics.Params.new inf mp
+    let p := if notol = 1 then p0 else p0.withTolerance tol
+    match p.check with
+    | .ok v => some s!"ok mp={v.minPoints} tol={showTol v.tolerance}"
+    | .error .minPoints => some "err MinPoints"
+    | .error .tolerance => some "err Tolerance"
+  | _ => none
 
 def handle (toks : List String) : String :=
   let r := match toks with
     | "dbscan" :: rest => handleDbscan rest
     | "optics" :: rest => handleOptics rest
+    | "params" :: rest => handleParams rest
     | _ => none
   r.getD "bad-op"
 
